@@ -8,4 +8,10 @@ if [ ! -x bin/pcheck ] || [ -n "$(find checker -name '*.go' -newer bin/pcheck 2>
   (cd checker && go build -o ../bin/pcheck ./cmd/pcheck) || { echo "VIOLATION property=$1 replay=/verif/evidence/$1.violations.json"; echo "checker does not build"; exit 1; }
 fi
 export VERIF_TIER="$2"
+rm -f "evidence/$1.selftest.json"
+if [ "$2" = "thorough" ]; then
+  # thorough: the rules of this property must still fire on the checker's own mutants (applied to scratch copies of
+  # /repo under /tmp, removed afterwards) and stay silent on the behaviour-preserving edits; pcheck embeds the result
+  python3 selftest/run.py --prop "$1" --json "evidence/$1.selftest.json" > "evidence/$1.selftest.log" 2>&1
+fi
 exec ./bin/pcheck "$1" "$2"
